@@ -16,7 +16,7 @@ JOBS = int(os.environ.get("VERIF_JOBS", "16"))
 GUARD = "CISCO_LIBSRTP_VERIF"
 SAN_FLAGS = "-O1 -g -fsanitize=address,undefined -fno-sanitize-recover=all -fno-omit-frame-pointer"
 
-GENERATED = ("Constants.v", "GlobalsGen.v")
+GENERATED = ("Constants.v", "GlobalsGen.v", "KernelGen.v")
 # The regenerated call-graph table GlobalsGen.v changes with almost every edit of /repo, but only C19's theorems depend on
 # it (Globals.v, Properties_C19.v; Interleave.v is self-contained).  They are compiled in a small build of their own
 # (build_globals), so that an edit of /repo that leaves the constants alone re-checks C19's table theorems in seconds
@@ -158,8 +158,18 @@ def build_c(config="internal"):
                 os.path.join(cdir, "Constants.v")], timeout=120)
         if r.returncode != 0:
             raise BuildError("gen_constants failed:\n" + r.stderr[-4000:])
+        # the integer kernels of key.c / rdbx.c / rdb.c / srtp.c translated to Gallina from the clang AST (tools/gen_kernels.py);
+        # KernelGenProofs.v proves them equal to the hand-written kernel models.  A construct the translator does not know
+        # leaves that function out (listed in KernelGen.v.failed): the equivalence file then no longer compiles, which the
+        # checks report as a note, not as a violation (the differential correspondence still ties the hand-written model).
+        gk = os.path.join(VERIF, "tools/gen_kernels.py")
+        if os.path.exists(gk):
+            r = sh([sys.executable, gk, REPO, cb, os.path.join(cdir, "KernelGen.v")], timeout=300)
+            if r.returncode != 0 or not os.path.exists(os.path.join(cdir, "KernelGen.v")):
+                open(os.path.join(cdir, "KernelGen.v"), "w").write("(* tools/gen_kernels.py failed: " + (r.stderr[-300:].replace("*)", "* )")) + " *)\n")
+                open(os.path.join(cdir, "KernelGen.v.failed"), "w").write("translator crashed")
         gg = os.path.join(VERIF, "tools/gen_globals.py")
-        if os.path.exists(gg):
+        if os.path.exists(gg) and config == "internal":      # the call-graph table is only used by C19, on the internal configuration
             r = sh([sys.executable, gg, REPO, cb, os.path.join(cdir, "GlobalsGen.v")], timeout=600)
             if r.returncode != 0:
                 raise BuildError("gen_globals failed:\n" + r.stderr[-4000:])
